@@ -884,11 +884,13 @@ def gram_schmidt(vecs, rcond=1.0e-14):
     """
     res = []
     for vec in vecs:
+        n0 = npc.norm(vec)
         for other in res:
             ov = npc.inner(other, vec, 'range', do_conj=True)
             iadd_prefactor_other(vec, -ov, other)
         n = npc.norm(vec)
-        if n > rcond:
+        # (what is left of a linearly dependent vector is rounding noise of the order eps * norm before projecting)
+        if n > max(rcond, 1.0e-14 * n0):
             iscale_prefactor(vec, 1.0 / n)
             res.append(vec)
     return res
